@@ -341,7 +341,15 @@ func engEnvGen(r *vh.Rand, runes []int32) engEnv {
 	}
 	if r.Chance(15) && len(closure) > 1 {
 		a, b := closure[r.Intn(len(closure))], closure[r.Intn(len(closure))]
-		env.Comp = append(env.Comp, [3]int32{a, b, 'B'})
+		// the table is a function of the pair (the hook stores it in a map): an invented composition replaces the
+		// Unicode one of the same pair
+		kept := env.Comp[:0]
+		for _, c := range env.Comp {
+			if !(c[0] == a && c[1] == b) {
+				kept = append(kept, c)
+			}
+		}
+		env.Comp = append(kept, [3]int32{a, b, 'B'})
 		if !seen['B'] {
 			seen['B'] = true
 			closure = append(closure, 'B')
